@@ -21,26 +21,28 @@ uintptr_t verif_tid(void);
 #define mi_atomic(name)  verif_atomic_##name
 #define VERIF_RAW(p)     (*(volatile uintptr_t*)(p))
 
+// NOTE: every macro evaluates its pointer argument exactly once (call sites such as
+// `mi_atomic_and_acq_rel(field++, ~mask)` in bitmap.c have side effects in the argument).
 #define verif_atomic_load_explicit(p,mo) \
-  ({ verif_pre(VOP_LOAD,(void*)(p)); uintptr_t _o = VERIF_RAW(p); __typeof__(atomic_load_explicit(p,mo)) _v = atomic_load_explicit(p,mo); verif_post(VOP_LOAD,(void*)(p),1,_o); _v; })
+  ({ __typeof__(p) _p = (p); verif_pre(VOP_LOAD,(void*)_p); uintptr_t _o = VERIF_RAW(_p); __typeof__(atomic_load_explicit(_p,mo)) _v = atomic_load_explicit(_p,mo); verif_post(VOP_LOAD,(void*)_p,1,_o); _v; })
 #define verif_atomic_store_explicit(p,x,mo) \
-  ({ verif_pre(VOP_STORE,(void*)(p)); uintptr_t _o = VERIF_RAW(p); atomic_store_explicit(p,x,mo); verif_post(VOP_STORE,(void*)(p),1,_o); })
+  ({ __typeof__(p) _p = (p); verif_pre(VOP_STORE,(void*)_p); uintptr_t _o = VERIF_RAW(_p); atomic_store_explicit(_p,x,mo); verif_post(VOP_STORE,(void*)_p,1,_o); })
 #define verif_atomic_exchange_explicit(p,x,mo) \
-  ({ verif_pre(VOP_XCHG,(void*)(p)); uintptr_t _o = VERIF_RAW(p); __typeof__(atomic_exchange_explicit(p,x,mo)) _v = atomic_exchange_explicit(p,x,mo); verif_post(VOP_XCHG,(void*)(p),1,_o); _v; })
+  ({ __typeof__(p) _p = (p); verif_pre(VOP_XCHG,(void*)_p); uintptr_t _o = VERIF_RAW(_p); __typeof__(atomic_exchange_explicit(_p,x,mo)) _v = atomic_exchange_explicit(_p,x,mo); verif_post(VOP_XCHG,(void*)_p,1,_o); _v; })
 #define verif_atomic_compare_exchange_weak_explicit(p,e,d,ms,mf) \
-  ({ int _sp = verif_pre(VOP_CASW,(void*)(p)); uintptr_t _o = VERIF_RAW(p); bool _r; \
-     if (_sp) { *(e) = atomic_load_explicit(p,mf); _r = false; } else { _r = atomic_compare_exchange_strong_explicit(p,e,d,ms,mf); } \
-     verif_post(VOP_CASW,(void*)(p),_r ? 1 : (_sp ? 2 : 0),_o); _r; })
+  ({ __typeof__(p) _p = (p); __typeof__(e) _e = (e); int _sp = verif_pre(VOP_CASW,(void*)_p); uintptr_t _o = VERIF_RAW(_p); bool _r; \
+     if (_sp) { *_e = atomic_load_explicit(_p,mf); _r = false; } else { _r = atomic_compare_exchange_strong_explicit(_p,_e,d,ms,mf); } \
+     verif_post(VOP_CASW,(void*)_p,_r ? 1 : (_sp ? 2 : 0),_o); _r; })
 #define verif_atomic_compare_exchange_strong_explicit(p,e,d,ms,mf) \
-  ({ verif_pre(VOP_CASS,(void*)(p)); uintptr_t _o = VERIF_RAW(p); bool _r = atomic_compare_exchange_strong_explicit(p,e,d,ms,mf); verif_post(VOP_CASS,(void*)(p),_r,_o); _r; })
+  ({ __typeof__(p) _p = (p); __typeof__(e) _e = (e); verif_pre(VOP_CASS,(void*)_p); uintptr_t _o = VERIF_RAW(_p); bool _r = atomic_compare_exchange_strong_explicit(_p,_e,d,ms,mf); verif_post(VOP_CASS,(void*)_p,_r,_o); _r; })
 #define verif_atomic_fetch_add_explicit(p,x,mo) \
-  ({ verif_pre(VOP_ADD,(void*)(p)); uintptr_t _o = VERIF_RAW(p); __typeof__(atomic_fetch_add_explicit(p,x,mo)) _v = atomic_fetch_add_explicit(p,x,mo); verif_post(VOP_ADD,(void*)(p),1,_o); _v; })
+  ({ __typeof__(p) _p = (p); verif_pre(VOP_ADD,(void*)_p); uintptr_t _o = VERIF_RAW(_p); __typeof__(atomic_fetch_add_explicit(_p,x,mo)) _v = atomic_fetch_add_explicit(_p,x,mo); verif_post(VOP_ADD,(void*)_p,1,_o); _v; })
 #define verif_atomic_fetch_sub_explicit(p,x,mo) \
-  ({ verif_pre(VOP_SUB,(void*)(p)); uintptr_t _o = VERIF_RAW(p); __typeof__(atomic_fetch_sub_explicit(p,x,mo)) _v = atomic_fetch_sub_explicit(p,x,mo); verif_post(VOP_SUB,(void*)(p),1,_o); _v; })
+  ({ __typeof__(p) _p = (p); verif_pre(VOP_SUB,(void*)_p); uintptr_t _o = VERIF_RAW(_p); __typeof__(atomic_fetch_sub_explicit(_p,x,mo)) _v = atomic_fetch_sub_explicit(_p,x,mo); verif_post(VOP_SUB,(void*)_p,1,_o); _v; })
 #define verif_atomic_fetch_and_explicit(p,x,mo) \
-  ({ verif_pre(VOP_AND,(void*)(p)); uintptr_t _o = VERIF_RAW(p); __typeof__(atomic_fetch_and_explicit(p,x,mo)) _v = atomic_fetch_and_explicit(p,x,mo); verif_post(VOP_AND,(void*)(p),1,_o); _v; })
+  ({ __typeof__(p) _p = (p); verif_pre(VOP_AND,(void*)_p); uintptr_t _o = VERIF_RAW(_p); __typeof__(atomic_fetch_and_explicit(_p,x,mo)) _v = atomic_fetch_and_explicit(_p,x,mo); verif_post(VOP_AND,(void*)_p,1,_o); _v; })
 #define verif_atomic_fetch_or_explicit(p,x,mo) \
-  ({ verif_pre(VOP_OR,(void*)(p)); uintptr_t _o = VERIF_RAW(p); __typeof__(atomic_fetch_or_explicit(p,x,mo)) _v = atomic_fetch_or_explicit(p,x,mo); verif_post(VOP_OR,(void*)(p),1,_o); _v; })
+  ({ __typeof__(p) _p = (p); verif_pre(VOP_OR,(void*)_p); uintptr_t _o = VERIF_RAW(_p); __typeof__(atomic_fetch_or_explicit(_p,x,mo)) _v = atomic_fetch_or_explicit(_p,x,mo); verif_post(VOP_OR,(void*)_p,1,_o); _v; })
 
 #elif MI_VERIF_HOOK_POINT == 2
 
